@@ -359,11 +359,9 @@ def _campaign(tier, seed, extra_progs):
         for r in runs:
             if r["mode"] == "async" and r["prints"] is not None and not r["crash"] and r["prog"] not in expect:
                 expect[r["prog"]] = {"bag": sorted(r["prints"]), "unique": True, "from": "real-run"}
-        try:
-            import sax
-            expect.update(sax.expected_bags(runnable, work, tier))
-        except ImportError:
-            pass
+        import sax
+        saxexp = sax.expected_bags(runnable, work, tier)
+        expect.update({n: e for n, e in saxexp.items() if e["unique"]})
         exh = exhaustive(small, work, timeout=300 if tier == "quick" else 1500,
                          expect={n: e["bag"] for n, e in expect.items() if e.get("unique")})
         tm["exhaustive"] = time.time() - t1; t1 = time.time()
@@ -376,11 +374,22 @@ def _campaign(tier, seed, extra_progs):
             r["premature"] = bool(r["events"]) and (r["id"] in rejq or premature_quiescence(r["events"], r["mode"]))
             r["nevents"] = len(r["events"])
             r["events"] = r["events"][:0]
+        # reference semantics: confluence of the reference on the small programs, and every observed print sequence
+        t1 = time.time()
+        saxconf = sax.confluence(small, {n: e for n, e in saxexp.items() if e["unique"]}, work, timeout=300 if tier == "quick" else 1200)
+        tm["sax_confluence"] = time.time() - t1; t1 = time.time()
+        cfree = {p["name"]: contraction_free(p["dump"]) for p in runnable}
+        obs = [{"id": r["id"], "prog": r["prog"], "prints": r["prints"]} for r in runs
+               if r["prints"] is not None and not r["crash"] and not r["hang"] and not r["late"] and not r["nonterminating"] and not r["premature"]
+               and r["prog"] in saxexp and (r["mode"] != "np" or cfree.get(r["prog"])) and len(r["prints"]) <= (40 if tier == "quick" else 120)]
+        saxval = sax.validate_orders(runnable, obs, work) if obs else {"observations": 0, "accepted": 0, "rejected": [], "errors": [], "states": 0}
+        saxval["selftest"] = sax.selftest(runnable, obs, work)
+        tm["sax_orders"] = time.time() - t1
         return {"tier": tier, "seed": seed,
                 "progs": [{k: p.get(k) for k in ("name", "src", "fe", "accepted", "closed", "runnable", "text")} | {
                     "cfree": contraction_free(p["dump"]) if p.get("dump") else None, "size": size.get(p["name"], 0)} for p in progs],
                 "runs": runs, "nonterminating": [p["name"] for p in progs if p["runnable"] and not p.get("terminates")], "exhaustive": exh, "small": [p["name"] for p in small], "validation": val, "expect": expect,
-                "matrix": [list(c) for c in cfgs], "timing": tm}
+                "matrix": [list(c) for c in cfgs], "timing": tm, "sax": saxexp, "sax_confluence": saxconf, "sax_orders": saxval}
 
 
 if __name__ == "__main__":
